@@ -49,6 +49,7 @@ type KnownFinding struct {
 	ObsName  string `json:"obs_name,omitempty"`
 	ObsRe    string `json:"obs_re,omitempty"` // regexp over the observation bytes (as a Latin-1 string)
 	ParamRe  string `json:"param_re,omitempty"`
+	Rel      string `json:"rel,omitempty"`   // named relation between observations, see relHolds
 	Fixed    string `json:"fixed,omitempty"` // "fixed: property=<id> <commit> <what failed>": matches nothing
 }
 
@@ -101,6 +102,9 @@ func (k *KnownFinding) matches(prop string, v *interp.Violation) bool {
 			return false
 		}
 	}
+	if k.Rel != "" && !relHolds(k.Rel, v.Obs) {
+		return false
+	}
 	if k.ObsRe != "" {
 		name := k.ObsName
 		if name == "" {
@@ -111,6 +115,17 @@ func (k *KnownFinding) matches(prop string, v *interp.Violation) bool {
 		}
 	}
 	return true
+}
+
+// relHolds evaluates a named relation over the concrete observations of a counterexample.
+func relHolds(rel string, obs map[string]string) bool {
+	get := func(n string) string { b, _ := hex.DecodeString(obs[n]); return string(b) }
+	switch rel {
+	case "with==without modulo LF":
+		a, b := get("with"), get("without")
+		return a != b && strings.ReplaceAll(a, "\n", "") == strings.ReplaceAll(b, "\n", "")
+	}
+	return false
 }
 
 type violRec struct {
@@ -125,7 +140,8 @@ func violKey(v *interp.Violation) string {
 	if len(v.Stack) > 0 {
 		top = v.Stack[0]
 	}
-	return v.Kind + "|" + v.Msg + "|" + top + "|" + v.Entry
+	// relational harnesses share one assertion site: keep the extension / variant under test in the key
+	return v.Kind + "|" + v.Msg + "|" + top + "|" + v.Entry + "|" + v.Param["ext"] + "|" + v.Param["variant"]
 }
 
 func CheckMain(args []string) int {
